@@ -23,7 +23,8 @@ func (srv *Srv) version(req *SrvReq) {
 		ver = "9P2000.u"
 	}
 
-	/* make sure that the responses of all current requests will be ignored */
+	/* make sure that the responses of all current requests will be ignored;
+	 * the Tversion itself is answered whatever tag the client gave it */
 	conn.Lock()
 	for tag, r := range conn.reqs {
 		if tag == NOTAG {
@@ -31,6 +32,10 @@ func (srv *Srv) version(req *SrvReq) {
 		}
 
 		for rr := r; rr != nil; rr = rr.next {
+			if rr == req {
+				continue
+			}
+
 			rr.Lock()
 			rr.status |= reqFlush
 			rr.Unlock()
